@@ -455,12 +455,21 @@ func (cr *ctxReplayer) runSeq(v ctxVec, run string) {
 		}
 		req.RemoteAddr = fmt.Sprintf("192.0.2.%d:4000", 10+i)
 		obsNow, cloneNow, cloneObs = nil, nil, nil
-		if st.Shape == "hijack" {
-			rt.ServeHTTP(&hijackableWriter{plainWriter: newPlainWriter()}, req)
-		} else {
-			rt.ServeHTTP(newPlainWriter(), req)
-		}
+		panicked := any(nil)
+		func() {
+			defer func() { panicked = recover() }() // a panic of fox while it serves the request is a verdict, not a crash of the harness
+			if st.Shape == "hijack" {
+				rt.ServeHTTP(&hijackableWriter{plainWriter: newPlainWriter()}, req)
+			} else {
+				rt.ServeHTTP(newPlainWriter(), req)
+			}
+		}()
 		cr.evals.Add(1)
+		if panicked != nil {
+			cr.r.violation(fmt.Sprintf("context shapes=%s step=%d panic while the request is served", strings.Join(shapes, ","), i+1), map[string]any{"kind": "behaviour",
+				"shapes": shapes, "step": i + 1, "prescribed": "no panic", "obtained": fmt.Sprint(panicked)})
+			return
+		}
 		want := expectFor(st.Expect, st.Shape, cur, 10+i)
 		switch st.Shape {
 		case "clonewith", "clone":
